@@ -18,6 +18,7 @@ def sh(cmd, cwd=None, timeout=1800):
 def main():
     confirm_only = "--confirm-only" in sys.argv
     check_only = "--check-only" in sys.argv
+    file_only = "--file-only" in sys.argv      # file the confirmed patches under selftest/benign without running the checks (seedmatrix does that)
     base, nums = "/tmp/mut", None
     for i, a in enumerate(sys.argv):
         if a == "--base":
@@ -64,11 +65,14 @@ def main():
             rec["confirmed"] = confirmed
             fired = None
             if confirmed and not confirm_only:
-                rc_s, o_s = sh("%s %s" % (os.path.join(ROOT, "tools", "seedrun.py"), patch), cwd=ROOT, timeout=1800)
-                try:
-                    fired = json.loads(o_s[o_s.index('{\n "patch"'):])["fired"]
-                except Exception:
-                    fired = {"error": o_s[-400:]}
+                if file_only:
+                    fired = {}
+                else:
+                    rc_s, o_s = sh("%s %s" % (os.path.join(ROOT, "tools", "seedrun.py"), patch), cwd=ROOT, timeout=1800)
+                    try:
+                        fired = json.loads(o_s[o_s.index('{\n "patch"'):])["fired"]
+                    except Exception:
+                        fired = {"error": o_s[-400:]}
                 rec["checks_fired"] = fired
                 out = os.path.join(ROOT, "selftest", "benign", rid)
                 shutil.copy(patch, out + ".diff")
